@@ -21,6 +21,10 @@ Clauses (numbers are used in the event names):
    grids) and maps._interp_volume_average_adj adds exactly W^T n to each of
    its three slots (random vectors, unit vectors, complete basis on small
    grids, and the pairing <F v, n> = <v, F^T n> with emg3d's own forward map)
+   7s the same for the transpose as Simulation.gradient uses it: gradient =
+   sum over source-frequency pairs of W_pair^T (cell-averaged field product
+   of that pair), W_pair built from the grid of that pair (gridding 'dict'
+   with per-source grids of equal shape, and 'input')
  8 Model.interpolate_to_grid: for the same conductivity handed over in each of
    the six mappings the interpolated model describes 10**(W log10 sigma),
    i.e. log mode for the linear mappings and plain averaging of the already
@@ -42,7 +46,8 @@ RULE = ("grid pairs with 1..12 cells per direction; per direction one of the "
         "(quick {0..4}: 676 pairs x 3 directions, thorough {0..6}: 14400 x 3 "
         "and 3-D products); values positive over eight decades (random, "
         "homogeneous, blocks, spike, trend), six mappings x four anisotropy "
-        "cases for the Model route; distinct = (class, relation per "
+        "cases for the Model route; Simulation.gradient with per-pair "
+        "computational grids (2-3 sources x 1-2 frequencies); distinct = (class, relation per "
         "direction, n_in>n_out?, value kind) that reached every oracle clause "
         "applicable to it, lattice pairs by (direction, node sets)")
 ASSUMPTIONS = [
@@ -90,6 +95,8 @@ def plan(tier, seed):
              for k in range(8)]                                   # 2000 pairs
         b += [{'id': f'l{k}', 'mode': 'lattice', 'm': 4, 'part': k, 'parts': 2}
               for k in range(2)]
+        b += [{'id': f'g{k}', 'mode': 'simgrad', 'k': k, 'n': 8}
+              for k in range(6)]
         return b
     # (sized on a machine shared with other jobs; the 48 x 1250 + 16 x 400 +
     # 20 bounds-checking batches variant was run once and was silent, too)
@@ -99,6 +106,8 @@ def plan(tier, seed):
           for k in range(32)]
     b += [{'id': f'p{k}', 'mode': 'lattice3', 'm': 4, 'k': k, 'n': 400}
           for k in range(8)]
+    b += [{'id': f'g{k}', 'mode': 'simgrad', 'k': k, 'n': 40}
+          for k in range(16)]
     b += [{'id': f'bc{k}', 'mode': 'rand', 'k': 100000+k, 'n': 120,
            'boundscheck': True} for k in range(8)]
     b += [{'id': f'bcl{k}', 'mode': 'lattice', 'm': 4, 'part': k, 'parts': 2,
@@ -976,6 +985,180 @@ def run_lattice3(rec, batch):
         guarded(rec, batch, p, r, models=(i % 3 == 0))
 
 
+# ------------------------------------------------- gradient of a Simulation
+def run_simgrad(rec, batch):
+    """Clause 7 at the place where the transpose is used: the gradient of a
+    Simulation whose computational grids differ from the model grid equals
+    the sum over the source-frequency pairs of W_pair^T applied to the
+    cell-averaged product of the stored forward and back-propagated fields,
+    W_pair being the reference volume-average operator between the model grid
+    and the grid *of that pair*.  (The fields are taken as stored; whether
+    they are good solutions does not matter for this identity.)"""
+    import warnings
+    import emg3d
+    from emg3d import maps
+    for i in range(batch['n']):
+        r = gen.rng(batch['seed'], 'C15', 'simgrad', batch['k'], i)
+        shape = tuple(int(x) for x in r.integers(3, 7, 3))
+        L = [float(10**r.uniform(2.5, 3.5)) for _ in range(3)]
+        org = [float(r.uniform(-1, 1)*l_) for l_ in L]
+        nodes_m = [nodes_random(r, n, o, o + l_)
+                   for n, o, l_ in zip(shape, org, L)]
+        mgrid = make_grid(nodes_m)
+        case_ = gen.choice(r, gen.CASES)
+        mapping = gen.choice(r, MAPPINGS)
+        sig = {d: 10**r.uniform(-1.5, 0.5, shape) for d in 'xyz'}
+        kw = {'property_x': from_sigma(sig['x'], mapping)}
+        if case_ in ('HTI', 'triaxial'):
+            kw['property_y'] = from_sigma(sig['y'], mapping)
+        if case_ in ('VTI', 'triaxial'):
+            kw['property_z'] = from_sigma(sig['z'], mapping)
+        model = emg3d.Model(mgrid, mapping=mapping, **kw)
+        nsrc = int(r.integers(2, 4))
+        nfreq = int(r.integers(1, 3))
+        gridding = gen.choice(r, ['dict', 'dict', 'dict', 'input'])
+
+        def cgrid(shift):
+            nn = []
+            for a in range(3):
+                lo = org[a] - (0.1 + 0.2*shift[a])*L[a]
+                hi = org[a] + (1.1 + 0.2*shift[a])*L[a]
+                nn.append(np.linspace(lo, hi, 9))
+            return nn
+        def inner(f=0.3):
+            return [float(org[a] + L[a]*r.uniform(0.5-f/2, 0.5+f/2))
+                    for a in range(3)]
+        srcs = {f'Tx{j}': emg3d.TxElectricDipole(
+            (*inner(), float(r.uniform(-180, 180)), float(r.uniform(-30, 30))))
+            for j in range(nsrc)}
+        recs = {f'Rx{j}': emg3d.RxElectricPoint(
+            (*inner(0.5), float(r.uniform(-180, 180)), 0.0))
+            for j in range(3)}
+        freqs = {f'f{j}': float(10**r.uniform(-0.5, 0.5))
+                 for j in range(nfreq)}
+        survey = emg3d.surveys.Survey(srcs, recs, freqs, noise_floor=1e-15,
+                                      relative_error=0.05)
+        # per-source grids: same shape, different position (what re-centring
+        # a grid on every source produces)
+        cn = {}
+        if gridding == 'dict':
+            gd = {}
+            for s_ in srcs:
+                sh = r.uniform(-1, 1, 3)
+                gd[s_] = {}
+                for f_ in freqs:
+                    if r.random() < 0.3:
+                        sh = r.uniform(-1, 1, 3)
+                    cn[(s_, f_)] = cgrid(sh)
+                    gd[s_][f_] = make_grid(cn[(s_, f_)])
+            gopts = gd
+        else:
+            one = cgrid(r.uniform(-1, 1, 3))
+            for s_ in srcs:
+                for f_ in freqs:
+                    cn[(s_, f_)] = one
+            gopts = make_grid(one)
+        case = {'mode': 'simgrad', 'k': batch['k'], 'i': i, 'shape': shape,
+                'case': case_, 'mapping': mapping, 'gridding': gridding,
+                'nsrc': nsrc, 'nfreq': nfreq}
+        rec.case()
+        try:
+            with warnings.catch_warnings():
+                warnings.simplefilter('ignore')
+                sim = emg3d.Simulation(
+                    survey, model, max_workers=1, gridding=gridding,
+                    gridding_opts=gopts, receiver_interpolation='linear',
+                    solver_opts={'maxit': 3, 'sslsolver': False,
+                                 'semicoarsening': False,
+                                 'linerelaxation': False, 'verb': 0},
+                    tqdm_opts=False, verb=-1)
+                sim.compute()
+                d = np.array(sim.data.synthetic.data)
+                survey.data.observed[...] = d*(1 + 0.1*r.standard_normal(
+                    d.shape) + 0.1j*r.standard_normal(d.shape))
+                sim.clean('computed')
+                g = np.array(sim.gradient)
+                pairs = list(sim._srcfreq)
+                fld = {sf: (sim.get_efield(*sf), sim._dict_bfield[sf[0]][sf[1]])
+                       for sf in pairs}
+        except Exception:  # noqa
+            import traceback
+            rec.inconclusive('simgrad: ' + traceback.format_exc()[-900:], case)
+            continue
+        rec.event('simulation_gradients')
+        ref = np.zeros((3, *shape))
+        slack = np.zeros((3, *shape))
+        for sf in pairs:
+            ef, bf = fld[sf]
+            gnodes = [np.array(ef.grid.nodes_x), np.array(ef.grid.nodes_y),
+                      np.array(ef.grid.nodes_z)]
+            if any(a.shape != b.shape or not np.allclose(a, b, rtol=1e-12,
+                                                         atol=1e-9)
+                   for a, b in zip(gnodes, cn[sf])):
+                rec.violation('C15:simulation-field-on-wrong-grid',
+                              f'the field of pair {sf} is not on the grid '
+                              f'provided for it', case)
+                break
+            gf = emg3d.Field(ef.grid, data=np.real(
+                bf.field*ef.smu0*ef.field))
+            csh = ef.grid.shape_cells
+            cg = np.zeros((3, *csh), order='F')
+            maps.interp_edges_to_vol_averages(
+                ex=gf.fx, ey=gf.fy, ez=gf.fz,
+                volumes=ef.grid.cell_volumes.reshape(csh, order='F'),
+                ox=cg[0], oy=cg[1], oz=cg[2])
+            W = RefAvg(nodes_m, gnodes)
+            for c in range(3):
+                ref[c] += W.applyT(cg[c])
+                slack[c] += W.slackT(np.abs(cg[c])) + 64*EPS*W.applyT(
+                    np.abs(cg[c]))
+            rec.event('simgrad_pairs')
+        else:
+            idx = [0]
+            if case_ in ('HTI', 'triaxial'):
+                idx.append(1)
+            else:
+                ref[0] += ref[1]
+                slack[0] += slack[1]
+            if case_ in ('VTI', 'triaxial'):
+                idx.append(2)
+            else:
+                ref[0] += ref[2]
+                slack[0] += slack[2]
+            props = {0: model.property_x, 1: model.property_y,
+                     2: model.property_z}
+            for c in idx:
+                fac = np.ones(shape)
+                model.map.derivative_chain(fac, props[c])
+                ref[c] *= fac
+                slack[c] *= np.abs(fac)
+            ref, slack = ref[idx].squeeze(), slack[idx].squeeze()
+            scale = float(np.max(np.abs(ref)))
+            rec.event('c7_simulation_gradient_checks')
+            if g.shape != ref.shape or not np.all(np.isfinite(g)):
+                rec.violation('C15:simulation-gradient-not-transpose',
+                              f'gradient shape {g.shape} / non-finite', case)
+                continue
+            err = np.abs(g - ref)
+            bound = slack + 1e-12*scale
+            q = float(np.max(err/bound))
+            rec.margin('simgrad_err_over_bound', q)
+            if not (q <= 1.0):
+                j = np.unravel_index(int(np.argmax(err/bound)), err.shape)
+                rec.violation(
+                    'C15:simulation-gradient-not-transpose',
+                    f'Simulation.gradient (gridding={gridding!r}, {nsrc} '
+                    f'sources x {nfreq} frequencies) differs from sum_pairs '
+                    f'W_pair^T (cell-averaged field product of that pair): '
+                    f'entry {j}: {g[j]!r} vs {ref[j]!r} (max |ref| {scale:.3e})',
+                    case)
+                continue
+            rec.distinct(('simgrad', gridding, case_, mapping, nsrc, nfreq))
+            rec.sample({'mode': 'simgrad', 'gridding': gridding,
+                        'case': case_, 'mapping': mapping, 'pairs': len(pairs),
+                        'err_over_bound': q})
+
+
 def guarded(rec, batch, p, r, **kw):
     try:
         check_pair(rec, p, r, **kw)
@@ -1006,6 +1189,8 @@ def run_batch(batch):
         run_lattice(rec, batch)
     elif batch['mode'] == 'lattice3':
         run_lattice3(rec, batch)
+    elif batch['mode'] == 'simgrad':
+        run_simgrad(rec, batch)
     return rec.result()
 
 
@@ -1025,6 +1210,7 @@ def finalize(merged, tier):
         'c7_adjoint_unit_vectors': 80000*k,
         'c7_complete_operator_pairs': 1500*k,
         'c7_pairing_checks': 2000*k,
+        'c7_simulation_gradient_checks': 30*k,
         'model_interpolations': 6000*k,
         'c8_model_property_checks': 10000*k,
         'c8_mapping_agreement_checks': 10000*k})
